@@ -129,6 +129,15 @@ impl Puppet {
         self.stdin.write_all(b"\n").map_err(|e| e.to_string())?;
         self.stdin.flush().map_err(|e| e.to_string())?;
         let mut reply = String::new();
+        if self.stdout.buffer().is_empty() {
+            // never block forever on a target that is stopped or dead
+            use std::os::fd::AsRawFd;
+            let mut pfd = libc::pollfd { fd: self.stdout.get_ref().as_raw_fd(), events: libc::POLLIN, revents: 0 };
+            let r = unsafe { libc::poll(&mut pfd, 1, 10_000) };
+            if r <= 0 {
+                return Err(format!("puppet {} did not answer {line:?} within 10 s", self.pid));
+            }
+        }
         self.stdout.read_line(&mut reply).map_err(|e| e.to_string())?;
         let t: Vec<String> = reply.split_whitespace().map(|s| s.to_string()).collect();
         if t.first().map(|s| s.as_str()) == Some("ok") {
